@@ -637,6 +637,9 @@ Plan gen_C11(Gen &g, Plan p)
         p.cfg["audit_kind"] = kind;
         static const int lv[] = { 4, 1, 2 }; // info, warning, critical
         p.cfg["audit_arg"] = kind == 0 ? lv[g.r.below(3)] : (kind == 1 ? (int)g.r.below(kNumCatRules) : (int)g.r.below(3));
+        static const char *cont[] = { "simple", "simple", "pipeline", "sorted" };
+        p.cfg["audit_container"] = cont[g.r.below(4)]; // how the sub-pipeline is built
+        p.cfg["audit_enospc"] = g.r.chance(1, 4); // every write to audit.log fails: its flush fails too
         bool arot = g.r.chance(1, 2);
         p.cfg["audit_rot"] = arot;
         if (arot) {
